@@ -182,25 +182,71 @@ func storesIn(fn *ssa.Function, fk string) []*ssa.Store {
 // mustStore: fn stores to field fk on every path to every return (the store's block dominates all return blocks),
 // returning the stored value.
 func mustStore(fn *ssa.Function, fk string) (ssa.Value, bool) {
-	for _, st := range storesIn(fn, fk) {
-		all := true
-		for _, b := range fn.Blocks {
-			if b == fn.Recover {
-				continue // the synthetic recover block of functions with defers
-			}
-			for _, ins := range b.Instrs {
-				if _, ok := ins.(*ssa.Return); ok {
-					if !(st.Block() == b || st.Block().Dominates(b)) {
-						all = false
-					}
+	return mustStoreDepth(fn, fk, 0)
+}
+
+// dominatesAllReturns: ins lies on every path from entry to a return of its function.
+func dominatesAllReturns(ins ssa.Instruction) bool {
+	fn := ins.Parent()
+	for _, b := range fn.Blocks {
+		if b == fn.Recover {
+			continue // the synthetic recover block of functions with defers
+		}
+		for _, x := range b.Instrs {
+			if _, ok := x.(*ssa.Return); ok {
+				if !(ins.Block() == b || ins.Block().Dominates(b)) {
+					return false
 				}
 			}
 		}
-		if all {
+	}
+	return true
+}
+
+func mustStoreDepth(fn *ssa.Function, fk string, depth int) (ssa.Value, bool) {
+	if fn == nil || fn.Blocks == nil {
+		return nil, false
+	}
+	for _, st := range storesIn(fn, fk) {
+		if dominatesAllReturns(st) {
 			return st.Val, true
 		}
 	}
-	return nil, false
+	if depth >= 2 || theProg == nil {
+		return nil, false
+	}
+	// a call on every path to a function that must-store fk, or to a helper that merely invokes a closure that does
+	// (x.locked(func(){ x.f = … }))
+	var val ssa.Value
+	found := false
+	allInstrs(fn, func(ins ssa.Instruction) {
+		c, ok := ins.(*ssa.Call)
+		if !ok || found || !dominatesAllReturns(c) {
+			return
+		}
+		if cf := c.Call.StaticCallee(); cf != nil && theProg.Analysed(cf) && cf != fn {
+			if v, ok2 := mustStoreDepth(cf, fk, depth+1); ok2 {
+				val, found = v, true
+				return
+			}
+			for _, ic := range invokedClosureArgs(theProg, &c.Call) {
+				all := len(ic.sites) > 0
+				for _, site := range ic.sites {
+					if !dominatesAllReturns(site) {
+						all = false
+					}
+				}
+				if !all {
+					continue
+				}
+				if v, ok2 := mustStoreDepth(ic.closure, fk, depth+1); ok2 {
+					val, found = v, true
+					return
+				}
+			}
+		}
+	})
+	return val, found
 }
 
 // resetsField: ins is a direct store to fk, or a static call to a function that must-stores fk.
@@ -211,7 +257,15 @@ func (p *Prog) resetsField(ins ssa.Instruction, fk string) (ssa.Value, bool) {
 	}
 	if c, ok := ins.(*ssa.Call); ok {
 		if cf := c.Call.StaticCallee(); cf != nil && p.Analysed(cf) {
-			return mustStore(cf, fk)
+			if v, ok2 := mustStore(cf, fk); ok2 {
+				return v, true
+			}
+			// a helper that merely invokes the closure it is handed, and the closure stores
+			for _, ic := range invokedClosureArgs(p, &c.Call) {
+				if v, ok2 := mustStore(ic.closure, fk); ok2 {
+					return v, true
+				}
+			}
 		}
 	}
 	return nil, false
@@ -528,4 +582,264 @@ func loadsOfAddr(addr ssa.Value) []ssa.Value {
 		}
 	}
 	return out
+}
+
+// testsOf returns the If instructions whose condition is v. When fn returns v unchanged as its j-th result (a lookup
+// helper that hands value and ok straight back), the tests are those of the j-th result at every static call site of
+// fn, recursively (depth 2). complete is false when some use of v could not be followed (fn escapes as a value, a
+// call site ignores the result).
+func (p *Prog) testsOf(fn *ssa.Function, v ssa.Value, depth int) (tests []*ssa.If, complete bool) {
+	complete = true
+	if v.Referrers() == nil {
+		return nil, false
+	}
+	returnedAs := -1
+	for _, ref := range *v.Referrers() {
+		switch x := ref.(type) {
+		case *ssa.If:
+			tests = append(tests, x)
+		case *ssa.Return:
+			for j, rv := range x.Results {
+				if rv == v {
+					returnedAs = j
+				}
+			}
+		}
+	}
+	// through a spilled named result or a defer-spilled return the value is stored and re-loaded: accept a store into a
+	// local whose loads are returned
+	if returnedAs < 0 {
+		for _, ref := range *v.Referrers() {
+			if st, ok := ref.(*ssa.Store); ok && st.Val == v {
+				if a, isA := st.Addr.(*ssa.Alloc); isA {
+					for _, l := range loadsOfAddr(a) {
+						if l.Referrers() == nil {
+							continue
+						}
+						for _, r2 := range *l.Referrers() {
+							if ret, isRet := r2.(*ssa.Return); isRet {
+								for j, rv := range ret.Results {
+									if rv == l {
+										returnedAs = j
+									}
+								}
+							}
+						}
+					}
+				}
+			}
+		}
+	}
+	if returnedAs < 0 {
+		return tests, complete
+	}
+	if depth >= 2 {
+		return tests, false
+	}
+	sites := p.staticCallSites(fn)
+	if len(sites) == 0 {
+		return tests, false
+	}
+	for _, site := range sites {
+		call, ok := site.(*ssa.Call)
+		if !ok || call.Referrers() == nil {
+			complete = false
+			continue
+		}
+		var res ssa.Value
+		if fn.Signature.Results().Len() == 1 {
+			res = call
+		} else {
+			for _, ref := range *call.Referrers() {
+				if ex, isEx := ref.(*ssa.Extract); isEx && ex.Index == returnedAs {
+					res = ex
+				}
+			}
+		}
+		if res == nil {
+			complete = false
+			continue
+		}
+		t, c := p.testsOf(call.Parent(), res, depth+1)
+		tests = append(tests, t...)
+		if !c || len(t) == 0 {
+			complete = false
+		}
+	}
+	return tests, complete
+}
+
+// paramSend describes one send a function performs on a channel it received as a parameter.
+type paramSend struct {
+	at       ssa.Instruction
+	blocking bool // a plain send, or a select without default
+	hasDone  bool // a select that also receives from a Done()-like channel
+}
+
+// paramSends lists the sends fn performs on its idx-th parameter, following the parameter into static callees it is
+// passed on to (depth 2).
+func paramSends(fn *ssa.Function, idx, depth int) []paramSend {
+	if fn == nil || fn.Blocks == nil || idx >= len(fn.Params) || depth > 2 {
+		return nil
+	}
+	prm := ssa.Value(fn.Params[idx])
+	isP := func(v ssa.Value) bool { return v == prm || canonVal(v) == prm }
+	var out []paramSend
+	allInstrs(fn, func(ins ssa.Instruction) {
+		switch x := ins.(type) {
+		case *ssa.Send:
+			if isP(x.Chan) {
+				out = append(out, paramSend{at: x, blocking: true})
+			}
+		case *ssa.Select:
+			snd, done := false, false
+			for _, st := range x.States {
+				if st.Dir == types.SendOnly && isP(st.Chan) {
+					snd = true
+				}
+				if st.Dir == types.RecvOnly {
+					if _, isDone := doneLike(st.Chan); isDone {
+						done = true
+					}
+				}
+			}
+			if snd {
+				out = append(out, paramSend{at: x, blocking: x.Blocking, hasDone: done})
+			}
+		case *ssa.Call:
+			if cal := x.Call.StaticCallee(); cal != nil && cal != fn {
+				for j, a := range x.Call.Args {
+					if isP(a) {
+						out = append(out, paramSends(cal, j, depth+1)...)
+					}
+				}
+			}
+		}
+	})
+	return out
+}
+
+// originsThroughParams resolves v to its canonical value; when that is a parameter of a function that is only ever
+// called statically, to the canonical values of the arguments at all its call sites (depth 2). complete is false when
+// the function has no visible call site or escapes as a value.
+func (p *Prog) originsThroughParams(v ssa.Value, depth int) (out []ssa.Value, complete bool) {
+	cv := canonVal(v)
+	if ct, ok := cv.(*ssa.ChangeType); ok {
+		cv = canonVal(ct.X)
+	}
+	prm, isP := cv.(*ssa.Parameter)
+	if !isP || depth >= 2 {
+		return []ssa.Value{cv}, true
+	}
+	fn := prm.Parent()
+	idx := -1
+	for i, q := range fn.Params {
+		if q == prm {
+			idx = i
+		}
+	}
+	sites := p.staticCallSites(fn)
+	if idx < 0 || len(sites) == 0 || fn.Parent() != nil || (fn.Object() != nil && fn.Object().Exported()) {
+		return []ssa.Value{cv}, true
+	}
+	complete = true
+	for _, site := range sites {
+		cc := instrCall(site)
+		if cc == nil || idx >= len(cc.Args) {
+			complete = false
+			continue
+		}
+		o, c := p.originsThroughParams(cc.Args[idx], depth+1)
+		out = append(out, o...)
+		if !c {
+			complete = false
+		}
+	}
+	return out, complete
+}
+
+// callsReaching returns the instructions of fn that call one of names directly, or call (statically) a module function
+// that reaches one of names within depth further calls — the sites of fn at which the named operation happens.
+func (p *Prog) callsReaching(fn *ssa.Function, depth int, names ...string) []ssa.Instruction {
+	var out []ssa.Instruction
+	allInstrs(fn, func(ins ssa.Instruction) {
+		if isCallNamed(ins, names...) {
+			out = append(out, ins)
+			return
+		}
+		if cc := instrCall(ins); cc != nil {
+			if cal := cc.StaticCallee(); cal != nil && p.Analysed(cal) && cal != fn && p.reachesCall(cal, depth-1, names...) {
+				out = append(out, ins)
+			}
+		}
+	})
+	return out
+}
+
+// forwardingWrapperOf: when f is called from exactly one place, and that place is a wrapper that does nothing but take
+// and release locks around the call, passes its own parameters on and returns f's results unchanged
+// (func (r *T) reconnectLocked(old X) error { r.mu.Lock(); err := r.reconnect(old); r.mu.Unlock(); return err }),
+// the wrapper and the position map (f's argument index -> wrapper's parameter index) are returned. Rules written
+// about "the call sites of f" then look at the call sites of the wrapper.
+func (p *Prog) forwardingWrapperOf(f *ssa.Function) (*ssa.Function, map[int]int) {
+	sites := p.staticCallSites(f)
+	if len(sites) != 1 {
+		return nil, nil
+	}
+	call, ok := sites[0].(*ssa.Call)
+	if !ok {
+		return nil, nil
+	}
+	w := call.Parent()
+	if w.Parent() != nil || w == f || (w.Object() != nil && w.Object().Exported()) {
+		return nil, nil
+	}
+	pos := map[int]int{}
+	for i, a := range call.Call.Args {
+		prm, isP := canonVal(a).(*ssa.Parameter)
+		if !isP || prm.Parent() != w {
+			return nil, nil
+		}
+		for j, q := range w.Params {
+			if q == prm {
+				pos[i] = j
+			}
+		}
+	}
+	pure := true
+	allInstrs(w, func(ins ssa.Instruction) {
+		switch x := ins.(type) {
+		case *ssa.Call:
+			if x == call {
+				return
+			}
+			if op, _ := classifyLockCall(&x.Call); op == opNone {
+				pure = false
+			}
+		case *ssa.Defer:
+			if op, _ := classifyLockCall(&x.Call); op == opNone {
+				pure = false
+			}
+		case *ssa.Go, *ssa.Send, *ssa.Select, *ssa.MapUpdate, *ssa.If, *ssa.Panic:
+			pure = false
+		case *ssa.Store:
+			if _, isAlloc := x.Addr.(*ssa.Alloc); !isAlloc {
+				pure = false
+			}
+		case *ssa.Return:
+			for _, rv := range retResults(x) {
+				cv := canonVal(rv)
+				if ex, isEx := cv.(*ssa.Extract); isEx {
+					cv = ex.Tuple
+				}
+				if cv != ssa.Value(call) {
+					pure = false
+				}
+			}
+		}
+	})
+	if !pure {
+		return nil, nil
+	}
+	return w, pos
 }
